@@ -7,6 +7,8 @@ package traefikoidc
 // strings, decoded cookies, structured locations) and the step runner.
 
 import (
+	"io"
+	"compress/gzip"
 	"bufio"
 	"bytes"
 	"context"
@@ -570,6 +572,91 @@ func (w *vfWorld) jarTerm(jar map[string]string) string {
 		parts = append(parts, fmt.Sprintf("(%s, %s)", cn, w.cookieTerm(n, jar[n])))
 	}
 	return "[" + strings.Join(parts, "; ") + "]"
+}
+
+// ---- independent read-back (C07): what an independent reader gets out of a jar of GENUINE cookies -- own codec,
+// own base64+gzip -- against what the code's own session getters return for the same cookies
+
+func vfOwnDecompress(s string) (string, bool) {
+	data, err := base64.StdEncoding.DecodeString(s)
+	if err != nil {
+		return "", false
+	}
+	zr, err := gzip.NewReader(bytes.NewReader(data))
+	if err != nil {
+		return "", false
+	}
+	out, err := io.ReadAll(zr)
+	if err != nil {
+		return "", false
+	}
+	return string(out), true
+}
+
+// ownToken reads one token (base cookie + chunk cookies) the way the documentation says it is stored; ok=false
+// whenever anything is not plainly well formed (a cookie of unknown origin, a gap, no "compressed" mark, bad gzip):
+// the comparison is made on well-formed jars only
+func (w *vfWorld) ownToken(jar map[string]string, base string) (string, bool) {
+	dec := func(name string) (map[interface{}]interface{}, bool) {
+		v, present := jar[name]
+		if !present {
+			return nil, false
+		}
+		who, asName, vals, ok := w.decodeCookie(name, v)
+		if !ok || who != 1 || asName != name {
+			return nil, false
+		}
+		return vals, true
+	}
+	bv, ok := dec(base)
+	if !ok {
+		return "", false
+	}
+	if c, _ := bv["compressed"].(bool); !c {
+		return "", false
+	}
+	text, _ := bv["token"].(string)
+	if text == "" {
+		for i := 0; ; i++ {
+			name := fmt.Sprintf("%s_%d", base, i)
+			if _, present := jar[name]; !present {
+				break
+			}
+			cv, ok := dec(name)
+			if !ok {
+				return "", false
+			}
+			piece, _ := cv["token_chunk"].(string)
+			text += piece
+		}
+		if text == "" {
+			return "", false
+		}
+	}
+	return vfOwnDecompress(text)
+}
+
+// readBackDiffers: the code's getters, given exactly this jar, return another ID or refresh token than the independent reader
+func (w *vfWorld) readBackDiffers(in *vfInstance, jar map[string]string) bool {
+	mainName, acc, ref := vfCookieNames()
+	// a session at or past the absolute timeout is dropped as a whole by design: nothing to read back
+	if v, present := jar[mainName]; present {
+		if who, asName, vals, ok := w.decodeCookie(mainName, v); ok && who == 1 && asName == mainName {
+			if created, ok := vals["created_at"].(int64); ok && time.Now().Unix()-created > 24*3600-10 {
+				return false
+			}
+		}
+	}
+	wantA, okA := w.ownToken(jar, acc)
+	wantR, okR := w.ownToken(jar, ref)
+	if !okA && !okR {
+		return false
+	}
+	gotA, gotR, ok := vfReadTokens(vfSessionManager(in.t), jar)
+	if !ok {
+		return false // the session as a whole was refused (too old, ...): not a read-back matter
+	}
+	return (okA && gotA != wantA) || (okR && gotR != wantR)
 }
 
 // ---- tokens
@@ -1170,7 +1257,7 @@ func (w *vfWorld) record(rq vfReq, in *vfInstance, req *http.Request, jar map[st
 		status = 999
 	}
 	obsTerm := fmt.Sprintf("(mkResp %d %s %s %s %s %s %s %s)", status, w.locationTerm(o, req), w.setCookiesTerm(o),
-		w.bodyTerm(o, req), w.fwdTerm(rq, o), vfBool(o.CORS), w.callsTerm(o), w.flagsTerm(req, jar, o, b.said))
+		w.bodyTerm(o, req), w.fwdTerm(rq, o), vfBool(o.CORS), w.callsTerm(o), w.flagsTerm(req, jar, o, b.said, in))
 	for _, d := range w.clientStrings(req, nil) {
 		if len(d) >= 3 && vfHasMarkup(d) && len(b.said) < 400 {
 			b.said = append(b.said, d)
@@ -1294,7 +1381,7 @@ func vfKeylessViews(value string) [][]byte {
 	return views
 }
 
-func (w *vfWorld) flagsTerm(req *http.Request, jar map[string]string, o *vfObserved, said []string) string {
+func (w *vfWorld) flagsTerm(req *http.Request, jar map[string]string, o *vfObserved, said []string, in *vfInstance) string {
 	flags := map[int]bool{}
 	ct := o.CType
 	if !o.Down && o.Body != "" {
@@ -1345,8 +1432,11 @@ func (w *vfWorld) flagsTerm(req *http.Request, jar map[string]string, o *vfObser
 	if o.Panic != nil {
 		flags[5] = true
 	}
+	if in != nil && w.readBackDiffers(in, jar) {
+		flags[6] = true
+	}
 	var parts []string
-	for f := 1; f <= 5; f++ {
+	for f := 1; f <= 6; f++ {
 		if flags[f] {
 			parts = append(parts, strconv.Itoa(f))
 		}
